@@ -111,6 +111,12 @@ def c16_runs(tier):
         add(1, 'flat', 3, 1, 4, 'l', 1, mode='asan', budget=20)
         for shape, a, d in (('flat', 2, 1), ('flat', 3, 1), ('bin', 2, 2), ('chain', 2, 4)):
             add(2, shape, a, d, ANY, 'h', 1, budget=15)
+        # two deviations on the two-level shapes: a functor running on the worker makes a nested call while T0 is
+        # already in wait() (the sibling it has just published is taken and finished by the waiter before the
+        # nested call has done its next step)
+        for cost in ('h', 'l'):
+            add(1, 'chain', 2, 2, 4, cost, 2, budget=40)
+        add(1, 'bin', 2, 2, 4, 'h', 2, budget=60)
     else:
         for shape, a, d in SHAPES:
             add(1, shape, a, d, ANY, ANY, 2, budget=45)
@@ -127,7 +133,7 @@ def c16_runs(tier):
 
 reg('C16', level='model_checking', runs=c16_runs, quick_budget_s=240, thorough_budget_s=1300,
     technique='stateless model checking of parallel_invoke on real pools: flat calls of arity 1-4 and recursive divide-and-conquer shapes, all interleavings up to a deviation bound, per-functor invocation/thread/completion bookkeeping',
-    level_text='parallel_invoke(ConcurrentTaskSet&, f1..fk) for k=1..4 flat; binary recursion with 1-3 levels (2, 6, 14 functors); left-deep chain (the scheduled functor recurses) and right-deep chain (the inline functor recurses) of 4 levels; pools of 0, 1, 2 workers; stealingLoadMultiplier 1 and 4; TaskCost heavy and lightweight; every interleaving with <=1 deviation (quick: all shapes on 0-1 workers, four shapes on 2 workers; thorough: <=2 deviations for every shape on one worker and for the flat arity-2/3 calls on two workers, <=1 for every shape on two workers, plus ternary and 4-ary two-level recursion). Oracle: a functor never starts twice nor after wait() returned; when a parallel_invoke call returns, its last functor has finished and ran on the calling thread; after ConcurrentTaskSet::wait() every functor has run exactly once and finished; coverage guard: siblings were seen running inline on the caller, pending at return, and on another thread.',
+    level_text='parallel_invoke(ConcurrentTaskSet&, f1..fk) for k=1..4 flat; binary recursion with 1-3 levels (2, 6, 14 functors); left-deep chain (the scheduled functor recurses) and right-deep chain (the inline functor recurses) of 4 levels; pools of 0, 1, 2 workers; stealingLoadMultiplier 1 and 4; TaskCost heavy and lightweight; every interleaving with <=1 deviation (quick: all shapes on 0-1 workers, four shapes on 2 workers, <=2 deviations on the two-level chain and binary shapes with one worker; thorough: <=2 deviations for every shape on one worker and for the flat arity-2/3 calls on two workers, <=1 for every shape on two workers, plus ternary and 4-ary two-level recursion). Oracle: a functor never starts twice nor after wait() returned; when a parallel_invoke call returns, its last functor has finished and ran on the calling thread; after ConcurrentTaskSet::wait() every functor has run exactly once and finished; coverage guard: siblings were seen running inline on the caller, pending at return, and on another thread.',
     level_note='the only overloads in parallel_invoke.h take a ConcurrentTaskSet; the documented contract is "does not call wait(), the caller drives synchronisation, the last functor runs inline on the calling thread" - exactly what the oracle demands. SC interleavings; TSan and ASan legs on two shapes.',
     design_ref='DESIGN.md section 4, C16', assumptions=MC_ASSUME, rule=RULE,
     guards=[need_cover('sibling_ran_inline_on_caller', 'sibling_pending_at_return', 'sibling_on_other_thread'), need_outcomes(12)])
